@@ -124,6 +124,56 @@ def check(chk, sc, out, deviation):
             chk.mismatch(tag + ":rescale:raised:" + type(ex).__name__, desc + ": rescale_variance=True raised %r" % (ex,), payload)
 
 
+def check_two_variants(chk, items):
+    """Two std parameterisations of one model as the two variants of ONE model object, same data: every variant has the moments of its own
+    scenario, also with rescale_variance=True (each variant rescaled by ITS OWN variance scale, once)."""
+    from .lre_common import model, per, quiet
+    (sc1, o1), (sc2, o2) = items
+    payload = {"kind": "kalman-variants", "scs": [_plain(sc1), _plain(sc2)], "src": list(o1["src"])}
+    tag = "kalman-variants:%s" % sc1["id"]
+    desc = "model %s with two variants (shock variances %s | %s, measurement variances %s | %s) on data %s" % (
+        sc1["id"], _plain(sc1["sd"]), _plain(sc2["sd"]), _plain(sc1["sdw"]), _plain(sc2["sdw"]), _plain(sc1["data"]))
+    try:
+        m = model(o1["src"], True, fresh=True)
+        m.alter_num_variants(2)
+        stds = {"std_" + n: [math.sqrt(float(fr(sc1["sd"][i]))), math.sqrt(float(fr(sc2["sd"][i])))] for i, n in enumerate(o1["shocks"])}
+        stds.update({"std_" + n: [math.sqrt(float(fr(sc1["sdw"]))), math.sqrt(float(fr(sc2["sdw"])))] for n in o1["mshocks"]})
+        m.assign(**stds)
+        db = ir.Databox()
+        for i, n in enumerate(o1["mvars"]):
+            db[n] = ir.Series(start=per(1), values=np.array([math.nan if nanv(row[i]) else float(row[i]) for row in sc1["data"]], dtype=float))
+        results = {}
+        for resc in (False, True):
+            results[resc] = quiet(m.kalman_filter, db, ir.Span(per(1), per(TK)), return_info=True, **({"rescale_variance": True} if resc else {}))
+    except Exception as ex:
+        chk.mismatch(tag + ":raised:" + type(ex).__name__, desc + ": raised %r" % (ex,), payload)
+        return
+    nx = len(o1["vars"])
+    for v, out in enumerate((o1, o2)):
+        n_obs = sum(pe["n"] for pe in out["pe"])
+        if not n_obs:
+            return
+        scale = sum(float(fr(pe["quad"])) for pe in out["pe"]) / n_obs
+        for resc in (False, True):
+            res, info = results[resc]
+            f = scale if resc else 1.0
+            for grp in ("predict", "update", "smooth"):
+                for t in range(1, TK + 1):
+                    for q, n in enumerate(o1["vars"]):
+                        e = float(fr(out[grp][t - 1]["mean"][q]))
+                        ev_ = float(fr(out[grp][t - 1]["var"][q])) * f
+                        try:
+                            g = float(res[grp + "_med"][n].get_data(per(t))[0, v])
+                            gs = float(res[grp + "_std"][n].get_data(per(t))[0, v])
+                        except Exception as ex:
+                            chk.mismatch(tag + ":output:" + type(ex).__name__, desc + ": reading %s of %s variant %d raised %r" % (grp, n, v, ex), payload)
+                            return
+                        if not close(g, e) or math.isnan(gs) or abs(gs * gs - ev_) > 1e-8 * max(1.0, ev_):
+                            chk.mismatch(tag + (":rescaled" if resc else "") + ":" + grp, desc + ": rescale_variance=%s: %s %s of variant %d in period %d is %r with variance %r; exact mean %r, variance%s %r" % (
+                                resc, grp, n, v, t, g, gs * gs, e, " x its own scale" if resc else "", ev_), payload)
+                            return
+
+
 def check_recursion_clauses(chk, sc, out):
     """Unit-root models (diffuse initial condition): no exact moments in the spec; what the statement implies for ANY model is evaluated on the
     filter's own output: (i) the predicted mean is the transition equation applied to the updated mean of the previous period with zero shocks,
@@ -193,10 +243,22 @@ def run(chk):
     chk.notes["clause_only_runs_unit_root"] = nc
     scen = scenarios(chk)
     n = 0
+    groups = {}
     for sc, out in scen:
         check(chk, sc, out, deviation=False)
         check(chk, sc, out, deviation=True)
         n += 2
+        groups.setdefault((sc["id"], repr(_plain(sc["data"]))), []).append((sc, out))
+    npairs = 0
+    for key, lst in sorted(groups.items()):
+        if len(lst) >= 2 and npairs < (200 if chk.tier == "thorough" else 24):
+            check_two_variants(chk, [lst[0], lst[-1]])
+            check_two_variants(chk, [lst[-1], lst[0]])
+            npairs += 2
+    if not npairs:
+        raise MachineryError("KalmanMC: no pair of scenarios for the two-variant filter")
+    n += npairs
+    chk.notes["two_variant_filter_runs"] = npairs
     sc, out = scen[len(scen) // 2]
     chk.sample({"scenario": _plain(sc), "spec_smoothed_means_period2": _plain(out["smooth"][1]["mean"]),
                 "spec_prediction_error_cov": _plain([pe["F"] for pe in out["pe"]])})
